@@ -733,7 +733,10 @@ _rt_text = st.one_of(
     st.sampled_from(['', ',', '%2C', 'a,b', '+', ' ', '%', 'true', '&', '=']),
 )
 _rt_key = _rt_text.filter(lambda k: k != '')
-_rt_value = st.one_of(_rt_text, _rt_text, st.integers(-1000, 1000), st.lists(_rt_text, min_size=2, max_size=5))
+# numbers are documented as "something that can be converted into a str": their str() is what must come back
+_rt_number = st.one_of(st.integers(-1000, 1000), st.sampled_from([2 ** 63, -2 ** 64, 10 ** 30]),
+                       st.sampled_from([1e16, float(2 ** 63), 1.5e300, 0.1, -2.5e-07, 1e15, 123456.789, -0.0]))
+_rt_value = st.one_of(_rt_text, _rt_text, _rt_number, st.lists(_rt_text, min_size=2, max_size=5))
 
 
 class RoundTrip(Suite):
@@ -801,6 +804,8 @@ class RoundTrip(Suite):
             labels.append('blank_value')
         if any(isinstance(v, int) for v in d.values()):
             labels.append('int_value')
+        if any(isinstance(v, float) for v in d.values()):
+            labels.append('float_value')
         if not d:
             labels.append('empty_dict')
         return Info(has_list or escaped, labels)
